@@ -56,28 +56,36 @@ EV = D(1602176634) / D(10) ** 28  # J per eV (SI 2019, exact)
 
 #: SI scale of every unit of the grid, as exact decimals (deg: pi/180 to 80 digits)
 SCALE: dict[str, Decimal] = {
-    'ns': D(10) ** -9, 'us': D(10) ** -6, 'ms': D(10) ** -3, 's': D(1),
-    'mm': D(10) ** -3, 'cm': D(10) ** -2, 'm': D(1), 'km': D(10) ** 3, 'angstrom': D(10) ** -10, 'nm': D(10) ** -9,
-    'ueV': EV * D(10) ** -6, 'meV': EV * D(10) ** -3, 'eV': EV, 'J': D(1),
+    'ps': D(10) ** -12, 'ns': D(10) ** -9, 'us': D(10) ** -6, 'ms': D(10) ** -3, 's': D(1),
+    'fm': D(10) ** -15, 'pm': D(10) ** -12, 'angstrom': D(10) ** -10, 'nm': D(10) ** -9, 'um': D(10) ** -6,
+    'mm': D(10) ** -3, 'cm': D(10) ** -2, 'm': D(1), 'km': D(10) ** 3,
+    'neV': EV * D(10) ** -9, 'ueV': EV * D(10) ** -6, 'meV': EV * D(10) ** -3, 'eV': EV, 'keV': EV * D(10) ** 3, 'J': D(1),
     'rad': D(1), 'deg': PI / 180,
-    # Q units: metres per (1/unit)
-    '1/angstrom': D(10) ** 10, '1/nm': D(10) ** 9, '1/m': D(1), '1/mm': D(10) ** 3,
+    # Q units: 1/m per unit
+    '1/pm': D(10) ** 12, '1/angstrom': D(10) ** 10, '1/nm': D(10) ** 9, '1/um': D(10) ** 6, '1/mm': D(10) ** 3, '1/m': D(1),
     'm/s^2': D(1), 'mm/s^2': D(10) ** -3, 'km/s^2': D(10) ** 3, 'cm/s^2': D(10) ** -2,
 }
 SI_BASE = {
-    'ns': 's', 'us': 's', 'ms': 's', 's': 's', 'mm': 'm', 'cm': 'm', 'm': 'm', 'km': 'm', 'angstrom': 'm', 'nm': 'm',
-    'ueV': 'J', 'meV': 'J', 'eV': 'J', 'J': 'J', 'rad': 'rad', 'deg': 'rad',
-    '1/angstrom': '1/m', '1/nm': '1/m', '1/m': '1/m', '1/mm': '1/m',
+    'ps': 's', 'ns': 's', 'us': 's', 'ms': 's', 's': 's',
+    'fm': 'm', 'pm': 'm', 'angstrom': 'm', 'nm': 'm', 'um': 'm', 'mm': 'm', 'cm': 'm', 'm': 'm', 'km': 'm',
+    'neV': 'J', 'ueV': 'J', 'meV': 'J', 'eV': 'J', 'keV': 'J', 'J': 'J', 'rad': 'rad', 'deg': 'rad',
+    '1/pm': '1/m', '1/angstrom': '1/m', '1/nm': '1/m', '1/um': '1/m', '1/mm': '1/m', '1/m': '1/m',
 }
 
+_LENGTHS = ['fm', 'pm', 'angstrom', 'nm', 'um', 'mm', 'cm', 'm', 'km']
+#: the unit grid: SI-prefixed units from far below to far above the natural scale of every quantity kind
 UNITS = {
-    'time': ['ns', 'us', 'ms', 's'],
-    'length': ['mm', 'cm', 'm', 'km', 'angstrom'],
-    'wavelength': ['angstrom', 'nm', 'mm', 'cm', 'm', 'km'],
-    'energy': ['ueV', 'meV', 'eV', 'J'],
+    'time': ['ps', 'ns', 'us', 'ms', 's'],
+    'length': list(_LENGTHS),
+    'wavelength': list(_LENGTHS),
+    'energy': ['neV', 'ueV', 'meV', 'eV', 'keV', 'J'],
     'angle': ['deg', 'rad'],
-    'Q': ['1/angstrom', '1/nm', '1/m', '1/mm'],
+    'Q': ['1/pm', '1/angstrom', '1/nm', '1/um', '1/mm', '1/m'],
 }
+#: units in which a kernel's internal unit conversions are no-ops (used by the call-twice cells of C07)
+SI_UNIT = {'time': 's', 'length': 'm', 'wavelength': 'm', 'energy': 'J', 'angle': 'rad', 'Q': '1/m', 'beam': 'm', 'gravity': 'm/s^2'}
+NATURAL_UNIT = {'time': 'us', 'length': 'm', 'wavelength': 'angstrom', 'energy': 'meV', 'angle': 'rad', 'Q': '1/angstrom',
+                'beam': 'm', 'gravity': 'm/s^2'}
 DTYPES = ['float64', 'float32', 'int64', 'int32']
 SHORT = {'float64': 'f64', 'float32': 'f32', 'int64': 'i64', 'int32': 'i32'}
 LONG = {v: k for k, v in SHORT.items()}
@@ -105,16 +113,28 @@ def scale_float(unit: str) -> float:
 
 
 def check_scales_against_scipp() -> list[str]:
-    """the exact scale table against what scipp itself uses (1e-15 relative)"""
+    """the exact scale table against what scipp itself uses (4e-16 relative); units scipp cannot parse or convert are
+    removed from the grids (reported by `unsupported_units`)"""
     import scipp as sc
 
     bad = []
     for u, base in SI_BASE.items():
-        got = float(sc.to_unit(sc.scalar(1.0, unit=u), base).value)
+        try:
+            got = float(sc.to_unit(sc.scalar(1.0, unit=u), base).value)
+        except Exception:  # noqa: BLE001
+            for lst in UNITS.values():
+                if u in lst:
+                    lst.remove(u)
+            if u not in UNSUPPORTED:
+                UNSUPPORTED.append(u)
+            continue
         want = float(SCALE[u])
         if not abs(got - want) <= 4e-16 * abs(want):
             bad.append(f'{u}: scipp {got!r} table {want!r}')
     return bad
+
+
+UNSUPPORTED: list[str] = []
 
 
 def constants() -> tuple[float, float]:
